@@ -63,3 +63,9 @@ fn format_names_table() {
 // methods of xt::Translator<W> from the bin crate ("Expected type `&mut xt::Translator<W>` ... but found `&mut
 // xt::Translator<W>`"), and without those stubs main() reaches file-descriptor I/O.  The per-input precedence
 // `-f` > extension > detection inside main() therefore stays outside the contracts; see DESIGN 12.8.)
+
+// (Cli::parse_args on the REAL lexopt parser -- lexopt::Parser::from_env stubbed by a parser over a scripted argument
+// vector, process::exit by a diverging marker -- was tried with symbolic and with enumerated concrete command lines and
+// dropped: a single concrete two-argument command line does not finish symbolic execution in 15 minutes (UTF-8
+// validation, memrchr and error formatting inside lexopt / OsString).  parse_args is under a Verus contract instead
+// (U-MAIN-V, lexopt as a stand-in).)
